@@ -62,7 +62,7 @@ Judge(e) ==
     [] e.op = "is_llone_parsable" -> JLL1(e)
     [] e.op = "llone_parse" -> JLL1Parse(e)
     [] e.op \in {"cnf_tree", "llone_tree", "rd_tree_left", "rd_tree_right", "fcfg_tree"} -> JTree(e)
-    [] e.op \in {"cnf_parse", "rd_parse_left", "rd_parse_right"} -> JRefuse(e)
+    [] e.op \in {"cnf_parse", "rd_parse_left", "rd_parse_right", "llone_refuse"} -> JRefuse(e)
     [] OTHER -> Fl("unknown-op")
 
 Init == l = 1 /\ out = {}
